@@ -164,7 +164,9 @@ def run(ctx):
     for (b, blk, c, t) in enc:
         k = op_int(t["args"][0])
         if k is None:
-            ctx.ob("S2", b.defp, "chunk-limit-constant", loc(t["sp"]), False, "payload limit is not a constant")
+            k = _eval_int_arg(prog, b, blk, 0)
+        if k is None:
+            ctx.ob("S2", b.defp, "chunk-limit-constant", loc(t["sp"]), False, "payload limit does not evaluate to a constant")
             continue
         tag, size_bytes = 16, 2 + 16
         maxlen = k - tag - size_bytes
@@ -276,6 +278,26 @@ def run(ctx):
             ctx.ob("S4", "octo_squirrel::protocol::vmess::session", f"{side}:directions-use-distinct-keys", "octo-squirrel/src/protocol/vmess/session.rs", ok, f"{side}: {m}", ordinal=False)
         ok = cl.get("encoder_key") == "request_body_key" and cl.get("encoder_nonce") == "request_body_iv" and cl.get("chunk_key") == "request_body_key"
         ctx.ob("S4", "octo_squirrel::protocol::vmess::session", "client-encodes-with-request-key", "octo-squirrel/src/protocol/vmess/session.rs", ok, f"client map {cl}", ordinal=False)
+
+
+def _eval_int_arg(prog, b, blk, i):
+    """constant value of an integer call argument, evaluated with the buffer-length interpreter (constant functions such as
+    tag_size() / size_bytes() are folded)"""
+    from .. import bla
+    an = bla.Analysis(prog)
+    found = {}
+    orig = an.exec_call
+
+    def spy(body, bk, t, st, ctx, depth):
+        if body is b and bk == blk:
+            v = an.eval_op(st, body, t["args"][i])
+            if v is not None and v.is_const():
+                found["v"] = v.c
+        return orig(body, bk, t, st, ctx, depth)
+
+    an.exec_call = spy
+    an.analyse_entry(b)
+    return found.get("v")
 
 
 def arg_strs_deep(b, t, i):
